@@ -13,7 +13,11 @@ FAILCLOSED = {
     'generate': [{'src': 'oslo_utils/strutils.py', 'mod': 'oslo_utils.strutils',
                   'constants': ['UNIT_PREFIX_EXPONENT', 'UNIT_SYSTEM_INFO'], 'imports': {'re': 're'}},
                  {'src': 'oslo_utils/imageutils/qemu.py', 'mod': 'oslo_utils.imageutils.qemu',
-                  'classes': {'QemuImgInfo': {}}, 'constants': ['QemuImgInfo.SIZE_RE', 'QemuImgInfo.TOP_LEVEL_RE'], 'imports': {'re': 're'}}],
+                  'classes': {'QemuImgInfo': {}}, 'constants': ['QemuImgInfo.SIZE_RE', 'QemuImgInfo.TOP_LEVEL_RE'], 'imports': {'re': 're'}},
+                 # oslo_utils.units: the SI / IEC constants the property's "base 1024 for IEC, 1000 for SI" refers to (cross-check only:
+                 # string_to_bytes does not read them; generate_code refuses if it starts to)
+                 {'src': 'oslo_utils/units.py', 'mod': 'oslo_utils.units',
+                  'constants': [c + 'i' for c in 'KMGTPEZYRQ'] + list('kMGTPEZYRQ')}],
     'generate_code': [{'src': 'oslo_utils/strutils.py', 'mod': 'oslo_utils.strutils',
                        'functions': {'string_to_bytes': {'defaults': {'unit_system': _A, 'return_int': _A}}},
                        'constants': ['UNIT_PREFIX_EXPONENT', 'UNIT_SYSTEM_INFO'],
@@ -95,6 +99,11 @@ def generate():
     out.append('Definition unit_system_info : list (str * (option Z * (re * bool))) := [%s].' % '; '.join(
         '(%s, (%s, (unit_re_%d, %s)))' % (lit(k), 'None' if base is None else 'Some %d%%Z' % base, i, 'true' if split[i][1] else 'false')
         for i, (k, base, rx) in enumerate(systems)))
+    un = repo_import('oslo_utils.units')
+    consts = [(k, v) for k, v in vars(un).items() if not k.startswith('_') and isinstance(v, int) and not isinstance(v, bool)]
+    if any(not isinstance(k, str) for k, _ in consts): raise GenError('oslo_utils.units: odd name')
+    out.append('(* every integer constant of oslo_utils/units.py, in module order (cross-check of the SI / IEC multipliers) *)')
+    out.append('Definition units_constants : list (str * Z) := [%s].' % '; '.join('(%s, %d%%Z)' % (lit(k), v) for k, v in consts))
     out.append('(* QemuImgInfo.SIZE_RE (flags %d): %s *)' % (size_re.flags, _cm(size_re.pattern)))
     out.append('Definition size_re : re := %s.' % terms[-2])
     out.append('(* QemuImgInfo.TOP_LEVEL_RE (flags %d): %s *)' % (top_re.flags, _cm(top_re.pattern)))
@@ -349,6 +358,14 @@ def generate_code():
     for n in ast.walk(f):
         if isinstance(n, (ast.Global, ast.Nonlocal, ast.Lambda, ast.FunctionDef)) and n is not f:
             raise GenError('string_to_bytes: nested scope construct')
+    for n in ast.walk(f):
+        if isinstance(n, ast.Name) and n.id == 'units':
+            raise GenError('string_to_bytes reads oslo_utils.units (the multipliers are no longer base ** UNIT_PREFIX_EXPONENT[prefix] alone)')
+    sm = repo_import('oslo_utils.strutils')
+    import types as _types
+    for k, v in vars(sm).items():
+        if isinstance(v, _types.ModuleType) and v.__name__ == 'oslo_utils.units':
+            raise GenError('oslo_utils.strutils imports oslo_utils.units as %s' % k)
     tr = _Tr([('text', 'str'), ('unit_system', 'str'), ('return_int', 'bool')])
     body = tr.block(f.body)
     out = [HEADER % ('oslo_utils/strutils.py', 'tools/gen/gen_C10.py (statement-level)')]
